@@ -307,14 +307,39 @@ def check_replace(ctx, R, kw, rng):
             ctx.violation('replace-identity', {'kw': U.kw_json(kw), 'cache': c}, 'replace() with unchanged parameters differs')
 
 
+def directed_specs(R):
+    """object shapes every run must contain, whatever the seed draws: BYSETPOS rules ended by COUNT and by UNTIL, lengths
+    at the cache fill batch, empty and single-element rules, sets with coinciding and fully excluded members"""
+    st = U.BASE
+    out = []
+    for count in (1, 3, 10, 11, 20):
+        out.append(('rule', {'freq': R.MONTHLY, 'dtstart': st, 'byweekday': [R.MO, R.TU, R.WE, R.TH, R.FR], 'bysetpos': [1, -1], 'count': count}))
+        out.append(('rule', {'freq': R.WEEKLY, 'dtstart': st, 'byweekday': [R.MO, R.WE, R.FR], 'bysetpos': 2, 'count': count, 'interval': 2}))
+        out.append(('rule', {'freq': R.DAILY, 'dtstart': st, 'byhour': [6, 18], 'bysetpos': -1, 'count': count}))
+    out.append(('rule', {'freq': R.MONTHLY, 'dtstart': st, 'byweekday': [R.FR], 'bysetpos': -1, 'until': st + D.timedelta(days=400)}))
+    out.append(('rule', {'freq': R.DAILY, 'dtstart': st, 'count': 0}))
+    out.append(('rule', {'freq': R.YEARLY, 'dtstart': st, 'bymonth': 2, 'bymonthday': 30, 'until': st + D.timedelta(days=3000)}))
+    out.append(('set', [{'freq': R.DAILY, 'dtstart': st, 'count': 10}, {'freq': R.DAILY, 'dtstart': st, 'count': 10}], [st, st + D.timedelta(days=30)], [], []))
+    out.append(('set', [{'freq': R.DAILY, 'dtstart': st, 'count': 5}], [], [{'freq': R.DAILY, 'dtstart': st, 'count': 5}], []))
+    out.append(('set', [{'freq': R.DAILY, 'dtstart': st, 'count': 20, 'bysetpos': 1, 'byhour': [9, 21]}], [], [], [st + D.timedelta(days=3)]))
+    return out
+
+
 def run(ctx):
     from dateutil import rrule as R
     rng = ctx.rng
-    for i in range(N_CASES[ctx.tier]):
+    directed = directed_specs(R)
+    for i in range(-len(directed), N_CASES[ctx.tier]):
         if i % 20 == 0 and not ctx.time_left():
             ctx.count('stopped_by_time_budget')
             break
-        spec = gen_spec(rng, R)
+        if i < 0:
+            if (-i) % ctx.nshards != ctx.shard:
+                continue
+            spec = directed[-i - 1]
+            ctx.count('directed_objects')
+        else:
+            spec = gen_spec(rng, R)
         sj = spec_json(spec)
         try:
             L = list(build(R, spec, False))
